@@ -24,22 +24,42 @@ var c17Filters = []filterPred{
 	{"rawtext+div+a", nameSet(append([]string{"div", "a"}, rawTextNames...)...)},
 }
 
+// c17Rejected is the oracle's idea of what predicate fp rejects. For the
+// checker's own predicates that is the predicate; for the library's GFM
+// predicate it is the list of nine raw-text elements in the property statement
+// (the library's function must not be its own judge).
+func c17Rejected(fp filterPred, name string) bool {
+	if fp.name == "GFM" {
+		for _, n := range rawTextNames {
+			if n == name {
+				return true
+			}
+		}
+		return false
+	}
+	return fp.f([]byte(name))
+}
+
+// XHTML3 works at tag granularity, so that five tokens reach "tag with a
+// stray quote / quoted attribute, then a rejected tag".
+var spXHTML3 = spaces.Space{Name: "X-html3", Doc: "whole tag openers (inline-only name b, block-level name p, rejected names), attribute shapes with matched and stray quotes, closers", Tokens: []string{"<b", "<p", "<script", "<XMP", ">", " \"", " '", " x=\"y\"", " x='>'", "</b>", "/", " ", "\n", "<!--", "-->", "a"}}
+
 // XHTML2 complements X-html with quoting, upper case and attribute shapes.
 var spXHTML2 = spaces.Space{Name: "X-html2", Doc: "tags with quotes, upper case, attributes, nested markers", Tokens: []string{"<", ">", "/", "script", "SCRIPT", "b", " ", "\n", "'", "\"", "=", "-", "!", "x"}}
 
 func init() {
-	spaces.All = append(spaces.All, spXHTML2)
+	spaces.All = append(spaces.All, spXHTML2, spXHTML3)
 	register(&Check{
 		ID:   "C17",
 		Rule: "every token sequence up to the stated length over the raw-HTML alphabets, placed in three contexts (as is, inside a paragraph after 'a ', inside a block quote), and over the inline alphabet, rendered with IgnoreRaw=false under 5 predicates x 2 soft-break behaviours; non-trivial = the unfiltered output contains '<' outside renderer-generated tags (raw HTML reached the output) and some predicate changed the output",
 		Assumptions: []string{
 			"tokenizer: WHATWG data-state family only, no tree construction (ref.StartTags), self-tested against x/net/html's tokenizer and hand-written cases",
-			"predicates: GFM, reject-all, reject-none, two name sets containing the raw-text elements",
+			"predicates: GFM (judged against the nine element names listed in the statement, not against the library's own function), reject-all, reject-none, two name sets containing the raw-text elements",
 		},
 		SelfTest: ref.WhatwgSelfTest,
 		Run: func(c *Ctx) {
 			ctxs := []struct{ name, prefix string }{{"block", ""}, {"para", "a "}, {"quote", "> "}}
-			for _, p := range []planEntry{{spaces.XHTML, 5, 6}, {spXHTML2, 5, 6}} {
+			for _, p := range []planEntry{{spaces.XHTML, 5, 6}, {spXHTML2, 5, 6}, {spXHTML3, 5, 6}} {
 				sp := p.sp
 				n := c.Pick(p.quick, p.thorough)
 				c.Explore(sp.Name, fmt.Sprintf("all inputs of <=%d tokens over %s x 3 contexts: %s", n, sp.Name, sp.Doc), -1, n, func(x *X) {
@@ -49,6 +69,21 @@ func init() {
 				})
 			}
 			c.Inputs(spaces.I, c.Pick(4, 5), c17Driver)
+			// Every raw-text element of the statement, in every letter-case pattern
+			// that matters, in every tag shape and context.
+			shapes := []string{"<%s>", "<%s x>", "<%s/>", "<%s\n>", "</%s><%s>", "<b><%s>", "<%s x=\"<%s>\">", "<!-- --><%s>", "<%s", "<%s>x</%s>"}
+			cases := []func(string) string{
+				func(n string) string { return n },
+				strings.ToUpper,
+				func(n string) string { return strings.ToUpper(n[:1]) + n[1:] },
+				func(n string) string { return n[:len(n)-1] + strings.ToUpper(n[len(n)-1:]) },
+			}
+			c.Explore("raw-text-names", fmt.Sprintf("the %d raw-text element names of the statement x %d letter-case patterns x %d tag shapes x 3 contexts", len(rawTextNames), len(cases), len(shapes)), -1, 0, func(x *X) {
+				name := cases[x.ChooseFree(len(cases))](rawTextNames[x.ChooseFree(len(rawTextNames))])
+				shape := shapes[x.ChooseFree(len(shapes))]
+				cx := ctxs[x.ChooseFree(len(ctxs))]
+				c17Driver(x, []byte(cx.prefix+strings.ReplaceAll(shape, "%s", name)+"\n"))
+			})
 		},
 	})
 }
@@ -93,7 +128,7 @@ func c17Driver(x *X, in []byte) {
 				changed = true
 			}
 			for _, name := range ref.StartTags(fil) {
-				if fp.f([]byte(name)) {
+				if c17Rejected(fp, name) {
 					x.Fail("rejected-start-tag-survives", cfg, in, "an HTML tokenizer reading the filtered output %q sees the start tag <%s>, which the predicate rejects (unfiltered output: %q)", fil, name, unf)
 					return
 				}
